@@ -195,6 +195,60 @@ func (r *runner) do(c Call) error {
 	return nil
 }
 
+// preConnect: command methods called on a client that has never been connected (the call may well block for
+// ever - it runs in a goroutine that is left behind), then Connect and the welcome.  Whatever reaches the
+// server besides the registration is recorded as that call's bytes; framing and verb (C08OK) must hold for
+// them like for any other call.  (Whether such a call is sent at all is not claimed by any listed property.)
+func preConnect(path string) error {
+	f, err := os.Create(path)
+	if err != nil {
+		return err
+	}
+	defer f.Close()
+	calls := []Call{
+		{M: "Join", A: []string{"#chan\r\nQUIT :injected"}, SL: 450},
+		{M: "Privmsg", A: []string{"#chan", "hello\nNICK evil"}, SL: 450},
+		{M: "Raw", A: []string{"PING a\rQUIT"}, SL: 450},
+		{M: "Topic", A: []string{"#c", "t\r\nQUIT :x"}, SL: 450},
+		{M: "Nick", A: []string{"ok"}, SL: 450},
+	}
+	for _, c := range calls {
+		s := sess.New(nil)
+		args := make([]string, len(c.A))
+		for i, x := range c.A {
+			args[i] = toBytes(x)
+		}
+		go func() {
+			defer func() { recover() }()
+			invoke(s.C, c.M, args)
+		}()
+		time.Sleep(2 * time.Millisecond)
+		if err := s.Connect(); err != nil {
+			return err
+		}
+		if !s.Welcome("me", 5*time.Second) {
+			return fmt.Errorf("registration did not complete")
+		}
+		s.Sync(5 * time.Second)
+		time.Sleep(2 * time.Millisecond)
+		wire := ""
+		all := string(s.Srv.Bytes())
+		for _, l := range strings.SplitAfter(all, "\n") {
+			t := strings.TrimRight(l, "\r\n")
+			if t == "NICK me" || strings.HasPrefix(t, "USER ident ") || strings.HasPrefix(t, "PONG :sync-") || l == "" {
+				continue
+			}
+			wire += l
+		}
+		rec := Rec{M: c.M, A: c.A, SL: c.SL, QuitMsg: fromBytes(s.Cfg.QuitMessage), Wire: fromBytes(wire)}
+		b, _ := json.Marshal(rec)
+		f.Write(ASCIIJSON(b))
+		f.Write([]byte("\n"))
+		s.Close()
+	}
+	return nil
+}
+
 // RunCalls: stdin = TLC output of MCCommands (CALL lines).
 func RunCalls(args []string) int {
 	fs := flag.NewFlagSet("cmd-calls", flag.ExitOnError)
@@ -204,6 +258,7 @@ func RunCalls(args []string) int {
 	mode := fs.String("mode", "dirty", "random calls: dirty (any method, CR/LF allowed) | split (splitting methods, clean long texts)")
 	sweep := fs.Int("sweep", 0, "also sweep splitMessage over all texts up to this length over {a, space, '.'} (0: off)")
 	maxt := fs.Int("maxtext", 900, "maximal length of random texts")
+	pre := fs.String("preout", "", "also record command methods called BEFORE the first Connect into this file")
 	fs.Parse(args)
 	maxText = *maxt
 	f, err := os.Create(*out)
@@ -251,6 +306,12 @@ func RunCalls(args []string) int {
 	for i := 0; i < *random; i++ {
 		if err := r.do(RandCall(r.rng, *mode)); err != nil {
 			fmt.Println("INCOMPLETE " + err.Error())
+			return 3
+		}
+	}
+	if *pre != "" {
+		if err := preConnect(*pre); err != nil {
+			fmt.Println("INCOMPLETE pre-connect calls: " + err.Error())
 			return 3
 		}
 	}
